@@ -5,6 +5,7 @@ CONSTANTS
   FmtSel = {}
   ClsSel = {}
   K = 4
+  DerivedMax = 0
   MaxFields = 1
   Kinds = {"?", "H", "I", "q", "20s", "varlenH", "varlenHutf8", "bits", "payload", "payload-list", "address", "arrayH-q", "raw"}
 INVARIANT RoundTripDef
